@@ -359,7 +359,13 @@ pub fn gen_case(rng: &mut Rng, _tier: &str, _profile: &str, stats: &mut Stats) -
     for _ in 0..3 {
         let iv = gen_iv(rng);
         let nonce = rng.bytes(12);
-        let (kind, authlen) = gen_kind(rng, stats);
+        let (mut kind, authlen) = gen_kind(rng, stats);
+        // (now and then the packet names the destination itself as its source: the codec has no opinion
+        // on who talks to whom)
+        if !kind.starts_with("w:") && rng.chance(1, 6) {
+            kind.replace_range(2..66, &hx(&dst));
+            stats.bump("gen.penc.source-is-destination");
+        }
         let fixed = 16 + 23 + authlen;
         let is_w = kind.starts_with("w:");
         let msg_len = if is_w {
